@@ -288,3 +288,37 @@ Section Pair.
     rewrite (std_flag_all f (spec_sighash_std _ _ _ _ _ _ Epre)). reflexivity.
   Qed.
 End Pair.
+
+(* ------------------------------------------------------------------ *)
+(* what `valid` says, spelled out: the flag byte selects the specified signature hash; the DER part and the key
+   element decode; the ECDSA verification primitive accepts on z = double-SHA256(preimage) mod n *)
+Lemma sig_valid_explicit wt n code v sg pk :
+  spec_sig_valid wt n code v sg pk = true <->
+  exists der f pre rs Q,
+    sg = der ++ [f] /\
+    sighash_spec Hd wt n (b2n f) code v = Some pre /\
+    der_decode der = Some rs /\ sec1_decode pk = Some Q /\
+    prim_verify Q (be_Z (sha256 (sha256 pre)) mod secp_n)%Z rs = true.
+Proof.
+  unfold spec_sig_valid, sig_valid, sig_data, data_valid. rewrite split_sig_last. split.
+  - destruct (last_opt sg) as [b|] eqn:El; [|discriminate].
+    destruct (sighash_spec Hd wt n (b2n b) code v) as [pre|] eqn:Ep; [|discriminate].
+    destruct (der_decode (removelast sg)) as [rs|] eqn:Ed; [|discriminate].
+    destruct (sec1_decode pk) as [Q|] eqn:EQ; [|discriminate].
+    intros Hv. exists (removelast sg), b, pre, rs, Q. repeat split; try assumption. apply last_opt_some. exact El.
+  - intros (der & f & pre & rs & Q & -> & Ep & Ed & EQ & Hv).
+    rewrite last_opt_app, removelast_last, Ep, Ed, EQ. exact Hv.
+Qed.
+
+(* the specification's signature hash is, per flag family, the C03 / C10 specification *)
+Lemma sighash_spec_forkid wt n f code v :
+  In f std_forkid_flags ->
+  sighash_spec Hd wt n f code v =
+    if single_without_output wt n f then None else bip143_preimage Hd wt n f (toks_bytes code) v.
+Proof. intros H. unfold sighash_spec. apply mem_N_In in H. rewrite H. reflexivity. Qed.
+Lemma sighash_spec_legacy wt n f code v :
+  In f std_legacy_flags -> sighash_spec Hd wt n f code v = legacy_preimage wt n f code.
+Proof.
+  intros H. unfold sighash_spec. apply mem_N_In in H. rewrite H.
+  destruct (mem_N f std_forkid_flags) eqn:E; [|reflexivity]. apply forkid_not_legacy in E. congruence.
+Qed.
